@@ -36,7 +36,7 @@ def required_buckets(tier):
         req.append(f'C05/conc/{nd}/')
     for k in ('solid', 'liquid', 'enzyme'):
         req.append(f'C05/conc/mol/L/{k}/' if k != 'enzyme' else 'C05/conc/U/L/enzyme/')
-    req += ['C05/infeasible/', 'C05/total/L', 'C05/total/g', 'C05/total/mol', 'C05/quantity/g/', 'C05/quantity/mol/',
+    req += ['C05/infeasible/', 'C05/infeasible/solvent_container_short', 'C05/total/L', 'C05/total/g', 'C05/total/mol', 'C05/quantity/g/', 'C05/quantity/mol/',
             'C05/quantity/L/', 'C05/quantity/U/']
     return req
 
@@ -216,6 +216,13 @@ def constructive(rng, case, idx):
             # over-determined and inconsistent: the second solute's quantity is doubled against its concentration
             v, b = R.parse_quantity(quants[1])
             bad = dict(concentration=concs, quantity=[quants[0], spell(rng, v * rng.choice([2.0, 0.5, 1.1]), b, exact=True)] + quants[2:])
+        if skind in ('container1', 'container_mixed', 'container_enz') and rng.random() < 0.5 and all(
+                R.per(s_, 'L') > 0 or True for s_ in solutes):
+            # the same mixture scaled up until it needs more of the solvent container than the container holds
+            kind = 'solvent_container_short'
+            f = rng.choice([1.02, 1.5, 10.0]) / g
+            bad = dict(concentration=concs if n > 1 else concs[0],
+                       total_quantity=spell(rng, R.measure(target, tb) * f, tb, exact=True))
         if bad is not None:
             M.bucket(f'C05/infeasible/{kind}')
             w.do('Container.create_solution', {'op': 'solution', 'solutes': [s.name for s in solutes], 'solvent': skind,
